@@ -1,4 +1,5 @@
 import PhononModel.Lemmas.SymmetrizeCompact
+import PhononModel.Lemmas.SymmetrizeTables
 import PhononModel.Lemmas.GroupAverage
 import PhononModel.Lemmas.SymmetrizeLoop
 import Mathlib.Tactic.FinCases
@@ -220,6 +221,45 @@ def T2 : CTables 1 2 2 where
 example : T2.wf = true := by decide
 example : T2.perms 1 (T2.perms 1 0) = 0 ∧ T2.perms 1 0 ≠ 0 := by decide
 
+/-! ### the index tables are computed (`get_nsym_list_and_s2pp` ↦ `mkTables`) -/
+
+/-- For inputs passing the executable group certificate (`Primitive`'s pure translations form a group acting
+freely on the atoms and preserving the sublattice map), `get_nsym_list_and_s2pp` returns (no `KeyError` /
+`IndexError`) and the tables it computes satisfy the certificate every compact-layout theorem assumes. -/
+theorem computed_tables_wf {np ns nt : Nat} (hnp : 0 < np) (hnt : 0 < nt) (p2s : Fin np → Fin ns)
+    (s2p : Fin ns → Fin ns) (perms : Fin nt → Fin ns → Fin ns) (h : transGroupCert p2s s2p perms = true) :
+    tablesDefined p2s s2p perms = true ∧ (mkTables hnp hnt p2s s2p perms).wf = true :=
+  let G := transGroupCert_sound p2s s2p perms h
+  ⟨G.tablesDefined, CTables.wf_complete _ (G.mkTables_WF hnp hnt)⟩
+
+/-- compact ≡ full with the tables computed by the model of `get_nsym_list_and_s2pp` — the only assumption
+left is on `Primitive`'s arrays (`transGroupCert`), not on the derived tables. -/
+theorem compact_eq_full_computed_tables {np ns nt : Nat} (hnp : 0 < np) (hnt : 0 < nt) (p2s : Fin np → Fin ns)
+    (s2p : Fin ns → Fin ns) (perms : Fin nt → Fin ns → Fin ns) (h : transGroupCert p2s s2p perms = true)
+    (L : Nat) (Φc : CFC np ns K) :
+    expand (mkTables hnp hnt p2s s2p perms) (compactSym (mkTables hnp hnt p2s s2p perms) L Φc)
+      = fullSym L (expand (mkTables hnp hnt p2s s2p perms) Φc) :=
+  compact_eq_full _ (computed_tables_wf hnp hnt p2s s2p perms h).2 L Φc
+
+/-- "the FIRST matching translation" is immaterial: any translation that carries atom `i` to its
+representative acts on every atom as the recorded one does (so `np.where(...)[0][0]` could be any match). -/
+theorem nsym_choice_immaterial {np ns nt : Nat} (hnp : 0 < np) (hnt : 0 < nt) (p2s : Fin np → Fin ns)
+    (s2p : Fin ns → Fin ns) (perms : Fin nt → Fin ns → Fin ns) (h : transGroupCert p2s s2p perms = true)
+    (i : Fin ns) (t : Fin nt) (ht : perms t i = s2p i) (x : Fin ns) :
+    perms t x = perms ((mkTables hnp hnt p2s s2p perms).nsym i) x := by
+  have G := transGroupCert_sound p2s s2p perms h
+  exact G.free _ _ i (by rw [ht, G.nsym_spec hnp hnt i]) x
+
+/-- the certificate is satisfiable: two primitive atoms, two cells (translations: identity and the swap of
+the cells); and it REJECTS a table whose second row is not a translation of the sublattices. -/
+def p2sEx : Fin 2 → Fin 4 := fun ip => ⟨ip.1, by omega⟩
+def s2pEx : Fin 4 → Fin 4 := fun i => ⟨i.1 % 2, by omega⟩
+def permsEx : Fin 2 → Fin 4 → Fin 4 := fun t i => if t = 0 then i else ⟨(i.1 + 2) % 4, by omega⟩
+def permsBad : Fin 2 → Fin 4 → Fin 4 := fun t i => if t = 0 then i else ⟨(i.1 + 1) % 4, by omega⟩
+example : transGroupCert p2sEx s2pEx permsEx = true := by decide +kernel
+example : transGroupCert p2sEx s2pEx permsBad = false := by decide +kernel
+example : (mkTables (by omega) (by omega) p2sEx s2pEx permsEx).nsym 3 = 1 := by decide +kernel
+
 /-- F2 in the model: the loop as it was before the repair leaves a self-paired block
 untransposed — on the two-atom table set above the statement `transposeLoop_eq` is false for it. -/
 def Φpin : CFC 1 2 ℚ := fun _ j k l => if j = 1 ∧ k = 0 ∧ l = 1 then 1 else 0
@@ -264,3 +304,6 @@ end PhononModel.C07
 #print axioms PhononModel.C07.fullSymF_spec
 #print axioms PhononModel.C07.pyFullSymF_spec
 #print axioms PhononModel.C07.compactSymF_spec
+#print axioms PhononModel.C07.computed_tables_wf
+#print axioms PhononModel.C07.compact_eq_full_computed_tables
+#print axioms PhononModel.C07.nsym_choice_immaterial
